@@ -20,6 +20,9 @@ from collections import Counter
 CURRENT: "Kernel | None" = None
 
 
+SIM_FD_BASE = 1_000_000
+
+
 class SimCrash(BaseException):
     """Raised inside a simulated process that has been killed (unwinds its frames)."""
 
@@ -355,6 +358,20 @@ class Kernel:
             self.locks.get(fd.path, {}).pop(pid, None)
         self._event(pid, "close", fd.path)
 
+    def sys_fsync(self, fd: FD):
+        """fsync/fdatasync of a simulated descriptor.  The simulated disk has no volatile cache of its own (process death,
+        not power loss, is what is modelled), so a successful fsync changes nothing - but it is a kernel call: a yield
+        point, and a place where an I/O error can be reported."""
+        pid, flt = self._enter("fsync", fd.path, fd.pid)
+        if flt is not None:
+            if flt.kind == "kill":
+                self._die(pid)
+            self._event(pid, "fsync", fd.path, "EIO")
+            raise OSError(errno.EIO, "injected EIO on fsync", fd.path)
+        if fd.closed:
+            raise OSError(errno.EBADF, "Bad file descriptor")
+        self._event(pid, "fsync", fd.path)
+
     def sys_stat(self, path) -> bool:
         p = self.norm(path)
         pid, flt = self._enter("stat", p)
@@ -536,7 +553,10 @@ class SimRaw(io.RawIOBase):
             super().close()
 
     def fileno(self):
-        raise OSError("SimRaw has no OS-level descriptor")
+        # a number no real descriptor of this process can have; os.fsync / os.fdatasync are redirected for such numbers
+        if self._fd.closed:
+            raise ValueError("I/O operation on closed file")
+        return SIM_FD_BASE + self._fd.fd
 
     def isatty(self):
         return False
